@@ -456,7 +456,7 @@ func c13Batch(c *Check, tier string) int {
 		fmt.Fprintln(os.Stderr, "harness:", err)
 		return 2
 	}
-	n := kit.EnvInt("VERIF_QUICK_RUNS", 6000)
+	n := kit.EnvInt("VERIF_QUICK_RUNS", 10000)
 	limit := 3 * time.Minute
 	if tier == "thorough" {
 		n = 1 << 30
